@@ -6,6 +6,8 @@ package c14
 // receives from Mgr.GetQueue() and never calls Mgr.Do in this world - whatever runs a callback
 // is the code under test.
 //
+// (It only LOOKS at the queue while nobody drains it: scan().)
+//
 // Life cycle of the owner (Model.life): new (NewStandardRunService returned, nobody drains the
 // queue) -> up (Start(): the loop goroutine exists) -> down (Stop() was called, by the driver
 // = a foreign goroutine, by a task of the loop itself, or by a timer callback; the loop is still
@@ -32,10 +34,12 @@ import (
 	"bytes"
 	"fmt"
 	"runtime"
+	"sort"
 	"sync/atomic"
 	"time"
 
 	"github.com/dfklegend/cell2/utils/runservice"
+	"github.com/dfklegend/cell2/utils/timer"
 )
 
 const (
@@ -190,49 +194,113 @@ func (w *world) stray(n int64) {
 	w.mu.Unlock()
 }
 
-// waitArrivals waits until every armed timer has delivered its expiry into the queue (nobody
-// reads the queue meanwhile: the loop does not exist or is parked), then g more ms; returns the
-// number of expiries that reached the queue since the last report.
-func (w *world) waitArrivals(g int64) int64 {
+// scan looks at what is in the queue WITHOUT consuming it: while no goroutine drains the queue
+// (no loop yet / any more, or the loop is parked in the controller task) the driver takes the
+// entries out and puts the same objects back in the same order.  Nothing of the code under test
+// can tell (the only reader is not reading; senders only ever append).  It is a measurement: Do
+// is never called here.
+func (w *world) scan() map[int]int {
 	q := w.mgr.GetQueue()
-	expect := 0
-	for _, ti := range w.ts {
-		if ti.expect {
-			expect++
+	var objs []*timer.Obj
+	for n := len(q); n > 0; n-- {
+		select {
+		case o := <-q:
+			objs = append(objs, o)
+		default:
+			n = 0
 		}
 	}
+	cnt := map[int]int{}
+	for _, o := range objs {
+		k, ok := w.byID[o.TimerId]
+		if !ok {
+			k = -1000000
+		}
+		cnt[k]++
+		q <- o
+	}
+	return cnt
+}
+
+// arrivals: timers whose expiry has reached the queue since the last report (cancelled ones
+// are not listed: a Cancel issued while armed may physically race with the expiry)
+func (w *world) arrivals(got *[]int64) {
+	cnt := w.scan()
+	for k, c := range cnt {
+		for n := w.inq[k]; n < c; n++ {
+			if k < 0 || !w.ts[k].cancelled {
+				*got = append(*got, int64(k))
+			}
+		}
+		if k >= 0 {
+			w.ts[k].expect = false
+			w.ts[k].queued = true
+		}
+	}
+	w.inq = cnt
+}
+
+// resync after the loop has run: what it consumed is forgotten, what arrived meanwhile and is
+// still there will be reported by the next wait
+func (w *world) resync() {
+	cnt := w.scan()
+	for k, n := range w.inq {
+		if cnt[k] < n {
+			w.inq[k] = cnt[k]
+		}
+	}
+	for k, ti := range w.ts {
+		if cnt[k] == 0 {
+			ti.queued = false
+		}
+	}
+}
+
+// waitArrivals waits until every armed timer has delivered its expiry into the queue (nobody
+// reads the queue meanwhile: the loop does not exist or is parked), then g more ms; returns the
+// timers whose expiry reached the queue since the last report.
+func (w *world) waitArrivals(g int64) []int64 {
+	got := []int64{}
 	limit := time.Now().Add(settleTimeout)
-	for len(q)-w.seen < expect && time.Now().Before(limit) {
+	for {
+		w.arrivals(&got)
+		waiting := false
+		for _, ti := range w.ts {
+			if ti.expect {
+				waiting = true
+				break
+			}
+		}
+		if !waiting {
+			break
+		}
+		if time.Now().After(limit) {
+			for k, ti := range w.ts {
+				if ti.expect {
+					got = append(got, -int64(k)-1) // expiry never arrived
+					ti.expect = false
+					w.tag("expiry-never-arrived")
+				}
+			}
+			break
+		}
 		time.Sleep(pollSleep)
 	}
 	if g > 0 {
 		time.Sleep(time.Duration(g) * unit)
+		w.arrivals(&got)
 	}
-	got := len(q) - w.seen
-	if got < expect {
-		w.tag("expiry-never-arrived")
-	}
-	if w.racers && got > expect {
-		// an expiry of a timer that was cancelled while armed may have raced into the queue
-		// (the property only fixes that no callback follows): not counted
-		got = expect
-	}
-	for _, ti := range w.ts {
-		if ti.expect {
-			ti.queued = true
-		}
-		ti.expect = false
-	}
-	w.seen = len(q)
-	if got < 0 {
-		got = 0
-	}
-	return int64(got)
+	sort.Slice(got, func(i, j int) bool { return got[i] < got[j] })
+	return got
 }
 
 func (w *world) svcStart() {
-	if !w.svcMode || w.getLife() != lifeNew {
-		w.tag("start-ignored")
+	if w.getLife() != lifeNew {
+		// Start() twice is not driven: the op only releases the loop (if there is one)
+		w.tag("start-again")
+		if w.alive() {
+			w.runLoop()
+		}
 		return
 	}
 	if len(w.mgr.GetQueue()) > 0 {
@@ -294,7 +362,16 @@ func (w *world) markStopped() {
 // has ended.
 func (w *world) runLoop() {
 	q := w.mgr.GetQueue()
-	defer func() { w.seen = len(q) }()
+	before := w.getLife()
+	defer func() {
+		w.resync()
+		if before == lifeUp && w.getLife() != lifeUp {
+			// a callback stopped the service during this release: an expiry that reached the
+			// channel before that Stop() and was not taken by the loop is indistinguishable, for
+			// the model, from one that came too late - neither is reported
+			w.inq = w.scan()
+		}
+	}()
 	for round := 0; ; round++ {
 		if w.ctl != nil {
 			close(w.ctl.release)
@@ -338,9 +415,6 @@ func (w *world) runLoop() {
 			continue // a callback stopped the service: let the loop go
 		}
 		if len(q) == 0 {
-			for _, ti := range w.ts {
-				ti.queued = false
-			}
 			return
 		}
 		if round >= runRounds {
